@@ -395,6 +395,19 @@ theorem jitter_keys_ascending (s : Jitter.St) (h : s.samples.Pairwise (fun a b =
     (Jitter.run s ops).samples.Pairwise (fun a b => a.1 < b.1) :=
   Jitter.run_sorted ops s h
 
+/-- **jitter_pop_aged_delivers**: from ANY state with a non-empty buffer, a `pop` whose head sample is older than
+`max_delay` delivers a sample that was in the buffer and shrinks the buffer — `get_first_seq` always names a key that
+is present (the two `unwrap()`s of `pop` / `next_pop_wait` cannot fail) and no gap blocks play-out for ever. -/
+theorem jitter_pop_aged_delivers (s : Jitter.St) (h : s.samples ≠ []) :
+    ∃ x, (s.pop true).2 = some x ∧ (∃ e ∈ s.samples, e.2 = x) ∧ (s.pop true).1.samples.length < s.samples.length :=
+  Jitter.pop_aged_delivers s h
+
+/-- **jitter_drain_empties**: popping until nothing is delivered (every head sample old enough) empties the buffer
+from any state, within `len + 1` pops: nothing a peer sent can be stranded in it. -/
+theorem jitter_drain_empties (s : Jitter.St) (acc : List Nat) :
+    (s.drain (s.samples.length + 1) acc).1.samples = [] :=
+  Jitter.drain_empties _ s acc (by omega)
+
 /-- the bound is attained (capacity 2: three in-order pushes keep two; capacity 0: one push keeps one) — the
 statement above is not vacuous and cannot be tightened to `capacity`. -/
 theorem jitter_bound_attained_witness :
